@@ -41,6 +41,30 @@ def enumeration(depth2):
     return out
 
 
+def mixed_records():
+    """records of two and three fields whose per-field verdicts differ (a Partial field before or after Full ones, reader-only fields with a
+    default in between): the record verdict must be the weakest of its fields wherever the weak field stands"""
+    def fld(kind, i):
+        n = 'f%d' % i
+        if kind == 'P':
+            return ({'name': n, 'type': {'type': 'enum', 'name': 'E%d' % i, 'symbols': ['A', 'B', 'C']}}, {'name': n, 'type': {'type': 'enum', 'name': 'E%d' % i, 'symbols': ['A', 'B']}})
+        if kind == 'L':
+            return ({'name': n, 'type': 'int'}, {'name': n, 'type': 'long'})
+        if kind == 'S':
+            return ({'name': n, 'type': 'string'}, {'name': n, 'type': 'string'})
+        return (None, {'name': n, 'type': 'int', 'default': 7})
+    out = []
+    for n in (2, 3):
+        for pat in itertools.product('PLSD', repeat=n):
+            if 'P' not in pat or all(k in 'PD' for k in pat) and len(set(pat)) == 1:
+                continue
+            fs = [fld(k, i) for i, k in enumerate(pat)]
+            w = {'type': 'record', 'name': 'R', 'fields': [a for a, _ in fs if a is not None]}
+            r = {'type': 'record', 'name': 'R', 'fields': [b for _, b in fs]}
+            out.append((''.join(pat), w, r))
+    return out
+
+
 def hostile_values(rng, node, env, k):
     """values of W biased to what breaks readers"""
     vg = gvalue.ValueGen(rng, env, boundary_bias=0.7, max_depth=4, max_len=2, max_map=2)
@@ -59,7 +83,8 @@ def check(run, replay_case=None):
     n_pairs = 500 if run.quick() else 20000
     k_vals = 6 if run.quick() else 40
     run.rule = ('all ordered pairs of a bounded enumeration (primitives, logical types, fixed, enums, and one-level containers/records/unions over a reduced alphabet, incl. repeated named '
-                'types and recursive records) + evolution pairs of C08 labelled safe/unsafe; for pairs reported Full: hostile values of W (invalid UTF-8, non-uuid strings, 15/17-byte '
+                'types, recursive records and two/three-field records mixing a Partial field with Full and defaulted ones in every position) '
+                '+ evolution pairs of C08 labelled safe/unsafe; for pairs reported Full: hostile values of W (invalid UTF-8, non-uuid strings, 15/17-byte '
                 'bytes, extremes, every branch and symbol) written with W and read with R; distinct = (verdict, writer shape, reader shape); non-trivial = W != R')
     run.min_evaluations = 500
     run.min_distinct = 100
@@ -77,6 +102,8 @@ def check(run, replay_case=None):
             rest = [p for p in pairs if p['labels'] != ['identity']]
             rng.shuffle(rest)
             pairs = diag + rest[:1600]
+        for pat, w, r in mixed_records():
+            pairs.append({'cid': 'em%s' % pat, 'writer': w, 'reader': r, 'labels': ['enumerated'], 'safe': None})
         for c in make_pairs(run, n_pairs, 'c09'):
             c['cid'] = 'v' + c['cid']
             pairs.append(c)
